@@ -62,7 +62,13 @@ class _RequestHandler:
         self.logger.info("<= [%s]: %s", client_address, data)
         try:
             response = {}
-            request = json.loads(data)
+            try:
+                request = json.loads(data)
+            except (ValueError, RecursionError) as e:
+                # Besides malformed JSON (a ValueError subclass), json.loads fails
+                # with a plain ValueError on integer literals over the digits limit
+                # and with a RecursionError on too deeply nested documents
+                raise json.decoder.JSONDecodeError(str(e), "", 0)
             self.logger.debug("Delivering request")
             response = self.protocol.handle_request(request)
             self.logger.debug("Got response: %s", response)
